@@ -4,7 +4,7 @@
     codec is C07's model; equality of fingerprints across processes and sensitivity to every value kind are decided on the
     implementation by the C08 harness: identical text loaded twice, in another file-creation order and GOMAXPROCS, and a
     menu of relevant / irrelevant edits per program.) *)
-From Dawn Require Import Fingerprint.Model Fingerprint.Proofs Fingerprint.Proofs_Iso.
+From Dawn Require Import Fingerprint.Model Fingerprint.Proofs Fingerprint.Proofs_Iso Fingerprint.Proofs_Payload.
 
 (** Fingerprinting terminates -- with fuel bounded by the number of functions -- on EVERY graph: self-recursion, mutual
     recursion through any number of functions, closures referring to their makers, shared helpers. *)
@@ -64,6 +64,22 @@ Theorem fingerprint_sensitive :
 Proof. exact Proofs_Iso.fingerprint_sensitive_lemma. Qed.
 Print Assumptions fingerprint_sensitive.
 
+(** SENSITIVITY TO ONE EDIT, in the words of the property: change the code identity of ONE function reachable from the
+    target and nothing else ([set_code g x c'], Proofs_Payload.v) and the fingerprint is unequal.  The code identity
+    [f_code] stands for everything the function pickles except the functions it mentions: bytecode, names, constants,
+    default and captured values, referenced globals -- numbers, strings, containers, WHICH builtin a value is (its name and,
+    for a bound method, its receiver: function.go since 6cdac65; before, every builtin was pickled alike and
+    F = len -> F = str was invisible), WHICH range (d823318; before, a range was pickled as the list of its elements).
+    That the implementation's pickle of such a payload is injective is decided on the real code by the value-space
+    families of the harness (and, for the generic codec, by C07). *)
+Theorem fingerprint_sensitive_to_payload :
+  forall g r x fd c' ts s ts' s',
+    reach g r x -> lookup x g = Some fd -> c' <> f_code fd ->
+    fingerprint g r = Done ts s -> fingerprint (set_code g x c') r = Done ts' s' ->
+    ts <> ts'.
+Proof. exact Proofs_Payload.fingerprint_sensitive_to_payload_lemma. Qed.
+Print Assumptions fingerprint_sensitive_to_payload.
+
 (** non-vacuity: mutual recursion even <-> odd used by third (which also calls itself), target t *)
 Definition ex_g1 : graph :=
   [(1, mkFn 101 1001 [4]); (2, mkFn 102 1002 [3]); (3, mkFn 103 1003 [2]); (4, mkFn 104 1004 [2; 4])].
@@ -117,3 +133,22 @@ Example same_named_in_progress_example :
   fingerprint collide_g1 1 = Done [TFun 10 100 [TFun 7 200 [TFun 7 300 [TRec 7 1]]]] (mkSt [3; 2; 1] [1; 2; 3]) /\
   fingerprint collide_g2 1 = Done [TFun 10 100 [TFun 7 200 [TFun 7 300 [TRec 7 2]]]] (mkSt [3; 2; 1] [1; 2; 3]).
 Proof. split; vm_compute; reflexivity. Qed.
+
+(** [fingerprint_sensitive_to_payload]'s hypotheses hold: in [ex_g1] function 3 (odd) is reachable from the target 1 only
+    through 4 and 2; a global alias of a builtin it uses is re-pointed (F = len -> F = str), i.e. its identity goes from
+    1003 to 1009 and nothing else changes: both fingerprints are computed and they differ. *)
+Example builtin_repointed_example :
+  reach ex_g1 1 3 /\ lookup 3 ex_g1 = Some (mkFn 103 1003 [2]) /\
+  exists ts s ts' s', fingerprint ex_g1 1 = Done ts s /\ fingerprint (set_code ex_g1 3 1009) 1 = Done ts' s' /\ ts <> ts'.
+Proof.
+  assert (R : reach ex_g1 1 3).
+  { apply (reach_step ex_g1 1 2 (mkFn 102 1002 [3]) 3); [|reflexivity|left; reflexivity|discriminate].
+    apply (reach_step ex_g1 1 4 (mkFn 104 1004 [2; 4]) 2); [|reflexivity|left; reflexivity|discriminate].
+    apply (reach_step ex_g1 1 1 (mkFn 101 1001 [4]) 4); [|reflexivity|left; reflexivity|discriminate].
+    apply reach_refl. discriminate. }
+  split; [exact R|]. split; [reflexivity|].
+  destruct (fingerprint_terminates ex_g1 1) as (ts & s & E).
+  destruct (fingerprint_terminates (set_code ex_g1 3 1009) 1) as (ts' & s' & E').
+  exists ts, s, ts', s'. split; [exact E|]. split; [exact E'|].
+  apply (fingerprint_sensitive_to_payload ex_g1 1 3 (mkFn 103 1003 [2]) 1009 ts s ts' s' R); [reflexivity|discriminate|exact E|exact E'].
+Qed.
